@@ -203,9 +203,31 @@ pub fn run(ctx: &Ctx) -> (Spec, Report) {
         if !has_file_content && i % 3 == 0 {
             discovery = "none".into();
         }
+        // a second configuration that must lose: further up the ancestor chain (the nearest typeshare.toml applies), or
+        // in the working directory when -c names another file
+        let decoy_toml = {
+            let mut d = c.clone();
+            d.prefix.file = matches!(c.lang, LangId::Swift | LangId::Kotlin).then(|| "Decoy".to_string());
+            d.package.file = match c.lang {
+                LangId::Kotlin | LangId::Scala => Some("decoy.pkg".to_string()),
+                LangId::Go => Some("decoypkg".to_string()),
+                _ => None,
+            };
+            d.module_name.file = matches!(c.lang, LangId::Kotlin | LangId::Scala).then(|| "decoymod".to_string());
+            d.file_only = LangCfg::default();
+            d.file_only.type_mappings = [("Stamp", "DecoyStamp"), ("Blob", "DecoyBlob"), ("UserId", "DecoyUser")].iter().map(|(a, b)| (a.to_string(), b.to_string())).collect();
+            file_toml(&d)
+        };
+        let with_decoy = i % 2 == 0 && discovery != "none";
+        if with_decoy {
+            rep.count("runs_with_a_losing_second_configuration", 1);
+        }
         match discovery.as_str() {
             "none" => {}
             "explicit" => {
+                if with_decoy {
+                    std::fs::write(cwd.join("typeshare.toml"), &decoy_toml).unwrap();
+                }
                 std::fs::write(root.join("explicit-config.toml"), &toml).unwrap();
                 args.push("--config-file".into());
                 args.push(root.join("explicit-config.toml").to_string_lossy().into_owned());
@@ -217,6 +239,14 @@ pub fn run(ctx: &Ctx) -> (Spec, Report) {
                     dir = dir.parent().unwrap().to_path_buf();
                 }
                 std::fs::write(dir.join("typeshare.toml"), &toml).unwrap();
+                if with_decoy {
+                    // one or two levels above the file that has to win
+                    let mut up = dir.parent().unwrap().to_path_buf();
+                    if i % 4 == 0 && up != root {
+                        up = up.parent().unwrap().to_path_buf();
+                    }
+                    std::fs::write(up.join("typeshare.toml"), &decoy_toml).unwrap();
+                }
             }
         }
         args.extend(cli_opts(c));
@@ -408,7 +438,7 @@ pub fn run(ctx: &Ctx) -> (Spec, Report) {
     let _ = std::fs::remove_dir_all(&scratch);
     let spec = Spec {
         level: "exploration",
-        rule: format!("{} cells of the real binary: for each language the full {{absent, present}} x {{absent, present}} matrix on the command line x in the file for every dual option (swift-prefix; kotlin-prefix x java-package x module-name; scala-package x scala-module-name; go-package), combined with random file-only tables (type_mappings, default_decorators, default_generic_constraints, codablevoid_constraints, uppercase_acronyms, no_pointer_slice), the config found by -c, by ancestor search from cwd depth 0-3, or absent; oracle: output bytes equal the library pipeline run with cli ?? file ?? default; plus {n_g} generate-config runs (random option subsets, default and explicit path): behavioural round trip for all 6 languages and a second -g under strace that must fail without touching the file; distinct = (language, per-option source, discovery)", cells.len()),
+        rule: format!("{} cells of the real binary: for each language the full {{absent, present}} x {{absent, present}} matrix on the command line x in the file for every dual option (swift-prefix; kotlin-prefix x java-package x module-name; scala-package x scala-module-name; go-package), combined with random file-only tables (type_mappings, default_decorators, default_generic_constraints, codablevoid_constraints, uppercase_acronyms, no_pointer_slice), the config found by -c, by ancestor search from cwd depth 0-3, or absent, half of the runs with a second, losing configuration (one or two levels further up the ancestor chain, or in the working directory when -c names another file); oracle: output bytes equal the library pipeline run with cli ?? file ?? default; plus {n_g} generate-config runs (random option subsets, default and explicit path): behavioural round trip for all 6 languages and a second -g under strace that must fail without touching the file; distinct = (language, per-option source, discovery)", cells.len()),
         assumptions: vec![
             "the library driver's construction of backend structs from a configuration mirrors cli/src/main.rs::language()".into(),
             "Scala without any package panics and Go without any package is refused: both are accepted outcomes here (the panic is C07's)".into(),
